@@ -31,3 +31,39 @@ pub trait Disseminator {
     /// Receives the next shred from the network.
     fn receive(&self) -> impl Future<Output = std::io::Result<Shred>> + Send;
 }
+
+/// Verification hooks for the out-of-tree `/verif` machinery (add-only, feature-gated).
+///
+/// Routing decisions of the disseminators depend only on a shred's position
+/// `(slot, slice index, shred index)`, whose fields are crate-private.
+/// These helpers read that position and place an existing shred at another position
+/// (signature and Merkle path are left untouched; disseminators never look at them).
+#[cfg(feature = "verif-hooks")]
+pub mod verif_hooks {
+    use crate::Slot;
+    use crate::shredder::{Shred, ShredIndex};
+    use crate::types::SliceIndex;
+
+    /// Returns `(slot, slice index, shred index)` of the given shred.
+    #[must_use]
+    pub fn shred_position(shred: &Shred) -> (Slot, usize, usize) {
+        let p = shred.payload();
+        (p.header.slot, p.header.slice_index.inner(), p.shred_index.inner())
+    }
+
+    /// Moves the shred to the given position; returns `false` (shred unchanged)
+    /// if the slice or shred index is out of range.
+    pub fn set_shred_position(shred: &mut Shred, slot: Slot, slice: usize, index: usize) -> bool {
+        let Some(slice_index) = SliceIndex::all().nth(slice) else {
+            return false;
+        };
+        let Some(shred_index) = ShredIndex::new(index) else {
+            return false;
+        };
+        let p = shred.payload_mut();
+        p.header.slot = slot;
+        p.header.slice_index = slice_index;
+        p.shred_index = shred_index;
+        true
+    }
+}
